@@ -3,12 +3,18 @@
   `tables` request).
 
   {"op":"scan","hex":..,"info_only":b,"continue":b,"ignore_expect":b,
-   "filter": null | [[mdexpr, op, int], ...]}        -- conjunction, evaluated left to right; op in == != < <= > >=
+   "filter": null | [[mdexpr, op, int], ...],        -- conjunction, evaluated left to right; op in == != < <= > >=
+   "fexpr": null | tree}                             -- general filter (Lang/FilterExpr.lean); takes precedence
+     tree = ["q", mdexpr] | ["c", const] | ["cmp", op, tree, tree] | ["not", tree] | ["and", tree, tree]
+          | ["or", tree, tree] | ["inlits", tree, [const, ...], negated] | ["in", tree, tree, negated]
+          | ["isnone", tree, negated]
+     const = ["n"] | ["i", int] | ["b", bool] | ["s", str] | ["x", hex] | ["l", [int, ...]]
      -> {"items":[[offset, nbytes, info_span], ...], "outcome":"done"|"loops"|"err:.."}
   `info_span` is the length of the bytes the decoder itself reported (`consumed`).
 -/
 import BufrModel.Msg.Stream
 import BufrModel.Lang.MdQuery
+import BufrModel.Lang.FilterExpr
 import BufrModel.Gen.Layouts
 import BufrModel.Drv.State
 import BufrModel.Drv.SectionsOp
@@ -57,6 +63,31 @@ def evalFilter (cs : List Clause) (m : MsgInfo (DecMsg (List SubsetOut))) : Exce
         | .ok true => go rest
     go cs
 
+def pyValOfJson (j : Json) : J FilterExpr.PyVal := do
+  let a ← asList j
+  match ← asStr (← idx a 0) with
+  | "n" => pure .none
+  | "i" => pure (.int (← asInt (← idx a 1)))
+  | "b" => pure (.bool (← asBool (← idx a 1)))
+  | "s" => pure (.str (← asStr (← idx a 1)).toList)
+  | "x" => pure (.bytes (← hexToBytes (← asStr (← idx a 1))))
+  | "l" => pure (.ints (← (← asList (← idx a 1)).mapM asInt))
+  | k => throw s!"bad constant kind {k}"
+
+partial def fexprOfJson (j : Json) : J FilterExpr.FExpr := do
+  let a ← asList j
+  match ← asStr (← idx a 0) with
+  | "q" => pure (.q (← asStr (← idx a 1)))
+  | "c" => pure (.lit (← pyValOfJson (← idx a 1)))
+  | "cmp" => pure (.cmp (← asStr (← idx a 1)) (← fexprOfJson (← idx a 2)) (← fexprOfJson (← idx a 3)))
+  | "not" => pure (.neg (← fexprOfJson (← idx a 1)))
+  | "and" => pure (.conj (← fexprOfJson (← idx a 1)) (← fexprOfJson (← idx a 2)))
+  | "or" => pure (.disj (← fexprOfJson (← idx a 1)) (← fexprOfJson (← idx a 2)))
+  | "inlits" => pure (.inLits (← fexprOfJson (← idx a 1)) (← (← asList (← idx a 2)).mapM pyValOfJson) (← asBool (← idx a 3)))
+  | "in" => pure (.isIn (← fexprOfJson (← idx a 1)) (← fexprOfJson (← idx a 2)) (← asBool (← idx a 3)))
+  | "isnone" => pure (.isNone (← fexprOfJson (← idx a 1)) (← asBool (← idx a 2)))
+  | k => throw s!"bad filter node {k}"
+
 def outcomeStr : Outcome → String
   | .done => "done"
   | .loops => "loops"
@@ -75,8 +106,14 @@ def opScan (st : DrvState) (j : Json) : J (DrvState × Json) := do
         let a ← asList c
         pure { expr := (← asStr (← idx a 0)), op := (← asStr (← idx a 1)), const := (← asInt (← idx a 2)) : Clause }
       pure (some cs)
+  let fej := fldD j "fexpr" Json.null
+  let fe : Option FilterExpr.FExpr ← if isNull fej then pure none else some <$> fexprOfJson fej
+  let pred : Option (MsgInfo (DecMsg (List SubsetOut)) → Except Err Bool) :=
+    match fe with
+    | some e => some fun m => FilterExpr.run e m.msg.sections
+    | none => filt.map evalFilter
   let cfg : Cfg (DecMsg (List SubsetOut)) :=
-    { infoOnly := info, continueOnError := cont, filter := filt.map evalFilter }
+    { infoOnly := info, continueOnError := cont, filter := pred }
   let (items, out) := scan (ofSections Gen.layouts (tableCoder st.tables) ign) cfg bytes
   pure (st, jobj [("items", jarr (items.map fun it => jarr [jnat it.offset, jnat it.bytes.length, jnat it.info.consumed])),
                   ("outcome", jstr (outcomeStr out))])
